@@ -56,7 +56,8 @@ fn mat_for(abc: Abc, tier: Tier) -> BoxedStrategy<MatSpec> {
             let lib = mat_strategy(abc, Just(m).boxed(), Regimes { library: true, finite: false, neginf: false, small_int: false, near_tie: false });
             let fin = (
                 proptest::collection::vec(proptest::collection::vec(prop_oneof![4 => -12.0f32..=12.0, 1 => (-6i32..=6).prop_map(|x| x as f32), 1 => (-60i32..=60).prop_map(|x| x as f32 / 10.0)], k), m),
-                bg_strategy(k, false, false),
+                // including backgrounds that give the wildcard some frequency (the real symbols then sum below one)
+                bg_strategy(k, true, false),
                 prop_oneof![3 => Just(0u8), 1 => Just(1u8), 1 => Just(2u8)],
             )
                 .prop_map(move |(rows, bg, wild)| {
@@ -148,7 +149,11 @@ fn prep<A: Alphabet>(case: &Case) -> Prep<A> {
     let tail = Tail::new(&cells, &bg);
     let total: f64 = bg.iter().sum();
     let mass = total.powi(cells.len() as i32);
-    let rel = 1e-9 + 2.0 * (cells.len() as f64) * (total - 1.0).abs();
+    // (until F25 was fixed this carried a term 2M|sum bg - 1|: the library counted the completions of a pruned
+    // prefix with mass 1 instead of (sum bg)^j, which for an f32 background is off by 1e-7 and for a background
+    // giving the wildcard some frequency by a large factor)
+    let rel = 1e-9;
+    let _ = total;
     Prep { pssm, tail, m: cells.len(), mass, rel }
 }
 
@@ -158,6 +163,7 @@ fn classify(case: &Case, k: usize, bgf: &[f32], info: &mut CaseInfo) {
     let u = bgf[0];
     info.class_if(bgf[..k - 1].iter().any(|&x| (x - u).abs() > 1e-6), "non-uniform-background");
     info.class_if(case.mat.rows.iter().any(|r| r[k - 1].0.is_finite()), "finite-wildcard-column");
+    info.class_if(bgf[k - 1] > 0.0, "background-gives-the-wildcard-some-frequency");
     info.class(match case.mat.regime.as_str() { "library" => "mat:library", "grid" => "mat:grid-valued", _ => "mat:finite" });
 }
 
@@ -308,7 +314,7 @@ impl Sub for PvalueRanges {
         "pvalue-ranges"
     }
     fn rule(&self) -> &'static str {
-        "DNA width 2..8 (quick) / ..12 (thorough), protein 2..3; library-made, arbitrary finite and grid-valued (every cell a multiple of 1/2 .. 1/32, 0.2, 0.05 or 1) matrices (wildcard column -inf, = row minimum, or arbitrary finite) x uniform / non-uniform backgrounds; 6..12 scores per matrix (below min, min, exactly attainable, just above attainable, between, max, above max, arbitrary); approximate_pvalue driven for at most 8 refinement steps; every step: 0 <= pmin <= pmax <= total mass, P(S>=s+(M+1)g) <= pmin, pmax <= P(S>=s-(M+2)g) against exact meet-in-the-middle enumeration over the real symbols; pvalue() checked when the bounded run converged; non-trivial = M >= 3, a query strictly inside (min, max) and >= 2 refinement steps"
+        "DNA width 2..8 (quick) / ..12 (thorough), protein 2..3; library-made, arbitrary finite and grid-valued (every cell a multiple of 1/2 .. 1/32, 0.2, 0.05 or 1) matrices (wildcard column -inf, = row minimum, or arbitrary finite) x uniform / non-uniform backgrounds, also ones giving the wildcard some frequency (the real symbols then carry less than unit mass per position); 6..12 scores per matrix (below min, min, exactly attainable, just above attainable, between, max, above max, arbitrary); approximate_pvalue driven for at most 8 refinement steps; every step: 0 <= pmin <= pmax <= total mass, P(S>=s+(M+1)g) <= pmin, pmax <= P(S>=s-(M+2)g) against exact meet-in-the-middle enumeration over the real symbols; pvalue() checked when the bounded run converged; non-trivial = M >= 3, a query strictly inside (min, max) and >= 2 refinement steps"
     }
     fn cases(&self, tier: Tier) -> u64 {
         tier.pick(20_000, 150_000)
@@ -349,7 +355,8 @@ fn run_long<A: Alphabet>(case: &LongCase, info: &mut CaseInfo) -> Option<Failure
     let mut bg: Vec<f64> = pssm.background().frequencies().iter().map(|&x| x as f64).collect();
     bg[k - 1] = 0.0;
     let total: f64 = bg.iter().sum();
-    let rel = 1e-9 + 2.0 * m * (total - 1.0).abs();
+    let rel = 1e-9;
+    let _ = total;
     let t = crate::tail::UpperTail::new(&cells, &bg);
     let cap = 3_000_000u64;
     let mut tfmp = TfmPvalue::new(&pssm);
@@ -441,6 +448,7 @@ pub fn property12() -> Property {
             "finite non-wildcard entries; S ranges over the K-1 real symbols with the matrix's background (f32 values widened to f64, not renormalised)",
             "the refinement is driven for at most 8 steps (granularity 0.1 .. 1e-8): for exactly attainable scores it need not converge, so the unbounded pvalue() is only called after the bounded run converged",
             "'within [0,1]' is read as <= max(1, (sum bg)^M)*(1+1e-9): an f32 background may carry total mass 1+M*6e-8",
+            "S ranges over the words of real symbols, each with the product of its symbols' background frequencies: under a background that gives the wildcard some frequency the total mass is (sum of real frequencies)^M < 1, and the exact tails are taken in that measure",
             "probabilities compared with 1e-9*value + 1e-15; score arguments widened by 1e-9 in the weakening direction",
         ],
     }
